@@ -23,6 +23,7 @@ type Env struct {
 	entry    Heap                // heap on entry of the enclosing loop (atentry)
 	entryPhi map[*ssa.Phi]Val    // loop-carried variables on entry of the enclosing loop
 	qdepth   int                 // quantifier nesting depth (bound names are made unique per depth)
+	inOld    bool                // inside old(...): parameters denote their entry values
 }
 
 func (g *Gen) newEnv(h, old Heap, b *ssa.BasicBlock) *Env {
@@ -74,6 +75,7 @@ func (e *Env) eval(x Expr) (Val, error) {
 	case *EOld:
 		o := e.sub()
 		o.heap = e.old
+		o.inOld = true
 		return o.eval(x.X)
 	case *EUnary:
 		if x.Op == "&" {
@@ -234,6 +236,17 @@ func (e *Env) nilOf(like Val) Val {
 func (e *Env) ident(name string) (Val, error) {
 	g := e.g
 	if v, ok := e.vars[name]; ok {
+		// in a loop invariant a parameter that the function reassigns denotes its current value (old(p) its entry value);
+		// everywhere else (pre- and postconditions) a parameter name denotes the entry value
+		if e.entry != nil && !e.inOld && !e.noLocals && e.block != nil {
+			if _, isParam := g.params[name]; isParam {
+				if nv, ok := g.lookupLocal(name, e.block, e.atEnd); ok {
+					if _, stillParam := nv.v.(*ssa.Parameter); !stillParam {
+						return e.localValue(nv), nil
+					}
+				}
+			}
+		}
 		return v, nil
 	}
 	if !e.noLocals {
@@ -387,9 +400,18 @@ func (e *Env) field(v Val, name string) (Val, error) {
 	for _, idx := range path {
 		T := cur.Ty
 		if _, isPtr := T.Underlying().(*types.Pointer); isPtr {
+			base := cur.T
 			cur = g.loadField(e.heap, derefType(T), cur.T, idx)
 			if cur.S != "" && !strings.Contains(cur.T, "|q!") && !strings.Contains(cur.T, "r!this") {
 				g.S.assert(g.typeAssume(cur))
+				// heap well-formedness: what a field of an allocated object refers to is allocated (or nil)
+				al := g.hget(e.heap, g.allocComp())
+				switch cur.S {
+				case SRef:
+					g.S.assert(imp(sel(al, base), or(eq(cur.T, "null"), sel(al, cur.T))))
+				case SSlice:
+					g.S.assert(imp(sel(al, base), or(eq(sx("s-arr", cur.T), "null"), sel(al, sx("s-arr", cur.T)))))
+				}
 			}
 		} else {
 			if idx >= len(cur.Flds) {
